@@ -37,6 +37,9 @@ struct Knobs {
     // to sleep for up to deschedule_max_ns of simulated time although it could run (timers of other threads fire meanwhile)
     std::uint32_t deschedule_per_65536 = 0;
     std::int64_t deschedule_max_ns = 1'500'000'000;
+    // the same long preemption, aimed at the classic place of atomicity violations: right after a mutex is released (between two
+    // critical sections that the code assumes to follow each other at once). Chance per unlock, in 1/65536.
+    std::uint32_t deschedule_after_unlock_per_65536 = 0;
     bool clock_jitter = false;             // every clock read advances time by 1..jitter_ns
     std::uint32_t jitter_ns = 1000;
     // network
@@ -63,7 +66,7 @@ struct RunStats {
     std::uint64_t short_reads = 0, short_writes = 0, eagain = 0, resets = 0, refused = 0,
                   rcv_timeouts = 0, sigpipes = 0, conn_established = 0, accept_faults = 0,
                   dgram_lost = 0, dgram_dup = 0, dgram_delivered = 0,
-                  file_faults = 0, file_ops = 0, crashes = 0, clock_steps = 0, bytes_tx = 0, descheduled = 0;
+                  file_faults = 0, file_ops = 0, crashes = 0, clock_steps = 0, bytes_tx = 0, descheduled = 0, descheduled_after_unlock = 0;
     bool deadlock = false;            // no runnable fiber, no timer, driver unfinished
     bool step_limit = false;
     std::string fatal;                // non-empty: run aborted by the kernel (description)
@@ -133,6 +136,8 @@ std::vector<std::string> trace_tail(std::size_t n);
 
 // --- network control
 void partition(std::uint32_t host_a, std::uint32_t host_b, bool blocked);  // both directions
+// a driver may aim the after-unlock preemptions (Knobs::deschedule_after_unlock_per_65536) at one operation: rate and longest sleep from now on
+void set_deschedule_after_unlock(std::uint32_t per_65536, std::int64_t max_ns);
 void set_host_unreachable_fast(bool fast);  // partitioned connect: EHOSTUNREACH now vs ETIMEDOUT later
 // resolve table for getaddrinfo: name -> list of (family, address bytes)
 void dns_set(const std::string& name, const std::vector<std::string>& numeric_addrs);
